@@ -3322,7 +3322,8 @@ Boolean PushSymbol(tStrComp const* pSymName, tStrComp const* pStackName) {
 
     Elem             = (PSymbolStackEntry)malloc(sizeof(TSymbolStackEntry));
     Elem->Next       = LStack->Contents;
-    Elem->Contents   = pSrc->SymWert;
+    as_tempres_ini(&Elem->Contents);
+    as_tempres_copy(&Elem->Contents, &pSrc->SymWert);
     LStack->Contents = Elem;
 
     return True;
@@ -3369,7 +3370,8 @@ Boolean PopSymbol(tStrComp const* pSymName, tStrComp const* pStackName) {
     }
 
     Elem             = LStack->Contents;
-    pDest->SymWert   = Elem->Contents;
+    as_tempres_copy(&pDest->SymWert, &Elem->Contents);
+    as_tempres_free(&Elem->Contents);
     LStack->Contents = Elem->Next;
     if (!LStack->Contents) {
         if (!PStack) {
